@@ -664,6 +664,7 @@ pub proof fn lemma_ib_piece_same(a: Interval, b: Interval)
     let sa = a.stride as int;
     let sb = b.stride as int;
     let sr = r.stride as int;
+    if b.stride != 0 { lemma_ib_tz(b.stride); }
     // the stride divides 2^wb * (multiples of a.stride) and multiples of b.stride
     if a.stride == 0 {
     } else if b.stride == 0 {
